@@ -58,6 +58,11 @@ def workload(case):
             target_response_time = cfg['trt']
             recalibrate_count = cfg['recal']
 
+            async def handle_request(self, request):
+                # what the peer asks of us meanwhile (a notification whose handler takes its time) must not hold up our own requests
+                await asyncio.sleep(case.get('notify_handler_time', 5.0))
+                return None
+
         proto, ft, s = sessions.attach(S, kind='client')
         wtimes = {}          # caller index -> virtual time its request/batch was written
         orig_write = ft.write
@@ -177,6 +182,8 @@ def workload(case):
             tasks = [loop.create_task(caller(i, spec)) for i, spec in enumerate(case['callers'])]
             if case.get('lose_at') is not None:
                 loop.call_later(case['lose_at'], ft.abort)
+            for tn in case.get('notify_at', ()):
+                loop.call_later(tn, lambda: None if ft.lost else proto.data_received(b'{"jsonrpc":"2.0","method":"tick","params":[]}\n'))
             horizon = case['horizon']
             done, pending = await asyncio.wait(tasks, timeout=horizon)
             snap_samples[:] = list(samples)
@@ -301,6 +308,10 @@ class C20(Prop):
                          'callers': [{'start': 0, 'batch': 0}] * 2 + [{'start': 0.9, 'batch': 0}, {'start': 1.0, 'batch': 2},
                                                                      {'start': 1.1, 'batch': 0}, {'start': 1.2, 'batch': 0}],
                          'lose_at': 1.6, 'horizon': 60})
+        # the peer sends notifications whose handlers take seconds while our requests are in flight and being answered promptly
+        directed.append({'kind': 'workload', 'cfg': {'timeout': 30.0, 'trt': 0.5, 'recal': 30}, 'peer': [['answer', 0.1]],
+                         'callers': [{'start': 0, 'batch': 0}, {'start': 0.95, 'batch': 0}, {'start': 1.5, 'batch': 2}, {'start': 5.0, 'batch': 0}],
+                         'notify_at': [0.9, 1.2], 'notify_handler_time': 40.0, 'lose_at': None, 'horizon': 200})
         for w in range(nw + len(directed)):
             ncall = rng.choice([1, 3, 10, 40, 120])
             timeout = rng.choice([30.0, 5.0, 1.0])
@@ -309,7 +320,9 @@ class C20(Prop):
                                 ['answer', 0.05], ['answer', 0.05], ['garbage', 0.1], ['some', 0.2]])
                     for _ in range(rng.randrange(1, 6))]
             callers = [{'start': rng.choice([0, 0, 0.1, 1.0, 7.0]), 'batch': rng.choice([0, 0, 0, 2, 5])} for _ in range(ncall)]
-            case = {'kind': 'workload', 'cfg': cfg, 'peer': peer, 'callers': callers,
+            extra_ = {'notify_at': [rng.choice([0.05, 0.5, 2.0]) for _ in range(rng.randrange(1, 3))], 'notify_handler_time': rng.choice([3.0, 40.0])} \
+                if rng.random() < 0.25 else {}
+            case = {**extra_, 'kind': 'workload', 'cfg': cfg, 'peer': peer, 'callers': callers,
                     'lose_at': rng.choice([None, None, None, 0.3, timeout / 2]),
                     'horizon': (timeout + 21.0) * (2 + ncall // 10) + 60}
             if w >= nw:
